@@ -653,7 +653,7 @@ def run_all(insts, harnesses, workdir, on_result=None):
     lock = threading.Lock()
     cond = threading.Condition(lock)
     state = {"mem": 0, "running": 0}
-    order = sorted(insts, key=lambda i: -i.timeout)  # longest first
+    order = sorted(insts, key=lambda i: (-i.mem_gb, -i.timeout))  # heaviest (= longest) first: they start at t=0
 
     def worker(inst):
         with cond:
